@@ -84,7 +84,7 @@ CHECKS: dict[str, dict] = {
     "C09": dict(
         cat="fault_enumeration", ref="DESIGN.md §3 C09, §2 E7", engine="E7 tlsrig",
         technique="fault enumeration: raw EOF injected at every byte offset (thorough) / every structural offset (quick) of the peer-to-library ciphertext stream of a fixed session, x standard_compatible x TLS 1.2/1.3 x client/server x async (in-memory leaf, real asyncio adapter) and blocking transports, plus cuts of the peer's answer to our close_notify",
-        text="In standard-compatible mode a cut before the end of the peer's close_notify is never reported as a clean end-of-stream (transport and endpoint level), plaintext of fully delivered records is still readable first, a cut inside the handshake makes wrap() raise with the wrapped transport closed; without standard-compatible mode an abrupt end is end-of-stream; closing sends close_notify.",
+        text="In standard-compatible mode a cut before the end of the peer's close_notify is never reported as a clean end-of-stream (transport and endpoint level), plaintext of fully delivered records is still readable first, a cut inside the handshake makes wrap() raise with the wrapped transport closed; without standard-compatible mode an abrupt end is end-of-stream; closing sends close_notify. The real TCPNetworkClient / AsyncTCPNetworkClient with ssl=True (their own default context, also when create_default_context() returns it with OP_IGNORE_UNEXPECTED_EOF set) carry the TLS error in the exception chain of the ConnectionAbortedError for every truncation and none for a clean close.",
     ),
     "C15": dict(
         cat="exploration", ref="DESIGN.md §3 C15", engine="mc/srvrig.py on E2 vloop",
